@@ -24,6 +24,7 @@ type Obligation struct {
 	Hyp     *Term // path condition (includes assumptions)
 	Goal    *Term
 	Cover   bool // must be SAT (vacuity guard)
+	Tag      string // for a precondition obligation: the text of the callee's clause
 	Advisory bool // cover whose refutation is reported but is not a failure (a return may be dead code)
 	Pos     string
 	Inputs  []*Term // terms whose model values are wanted on sat
@@ -78,6 +79,7 @@ type Exec struct {
 	curEffFn  *ssa.Function
 	freshRefs map[int]bool
 	immutable map[string]bool
+	refAxQ    map[string]bool
 	ptrTab    map[int]*PtrInfo // pointer value (term id) -> what it points to
 	boxEsc    bool // a captured local (box) may have become reachable by other code
 	epoch0    *Epoch
